@@ -405,7 +405,7 @@ var debugProgs = []string{"debug", "debug(\"m\")", "debug(.)", "debug(.,.)", "de
 // What comes out of fromjson must behave as the JSON value it is. Full product of
 // JSON texts x primitive probes, each compared as `TEXT | fromjson | PROBE`.
 
-var fjvTexts = []string{`"null"`, `"true"`, `"false"`, `"0"`, `"-1"`, `"1.5"`, `"-2.5"`, `"1000000000000000000000000000000"`, `"\"\""`, `"\"abc\""`, `"\"é€😀\""`, `"\"1\""`, `"\"a,b\""`,
+var fjvTexts = []string{`"-100000000000000000000"`, `"[-1,-100000000000000000000,-2.5]"`, `"{\"a\":-100000000000000000000}"`, `"18446744073709551616"`, `"null"`, `"true"`, `"false"`, `"0"`, `"-1"`, `"1.5"`, `"-2.5"`, `"1000000000000000000000000000000"`, `"\"\""`, `"\"abc\""`, `"\"é€😀\""`, `"\"1\""`, `"\"a,b\""`,
 	`"[]"`, `"[1,[2]]"`, `"[3,1,2]"`, `"[\"b\",\"a\"]"`, `"{}"`, `"{\"a\":{\"b\":1}}"`, `"{\"_start\":5}"`, `"{\"d\":4,\"b\":{\"x\":1},\"a\":[1,\"x\"],\"c\":\"s\",\"e\":null}"`}
 
 // keyProbes: probes that look up a string key. doc/usage.md, "Differences to jq":
@@ -423,7 +423,10 @@ var keyProbes = map[string]string{
 	`try .a catch "E"`: `if type == "object" then (try .a catch "E") else null end`,
 	".a // 7":          `if type == "object" then (.a // 7) else 7 end`,
 	"[.a]":             `if type == "object" then [.a] else [null] end`,
-	`path(.a)`:         `path(.a)`,
+	`path(.a)`:         `if type == "object" or type == "null" then path(.a) else ["a"] end`,
+	// derived forms of the same documented behaviour
+	`getpath(["a","b"])`: `if type == "object" or type == "null" then getpath(["a","b"]) else null end`,
+	`pick(.a)?`:          `if type == "object" or type == "null" then (pick(.a)?) else {a: null} end`,
 }
 
 var fjvProbes = []string{".", "type", "length", "utf8bytelength", "not", "keys", "keys_unsorted", "values", "has(\"a\")", "has(0)", ".[0]", ".[-1]", ".[5]", ".[1:]", ".[:1]", ".[0:0]", ".[]", ".[]?", "..",
@@ -463,6 +466,16 @@ func (x *l2run) fromjsonValue() {
 			probes = append(probes, p)
 		}
 	}
+	// operation sequences: the value observed again AFTER a primitive was applied to it
+	// (a primitive must not change the value it was applied to)
+	for _, p := range append([]string{}, probes...) {
+		// (the primitive's own result is judged by the plain probe, not again here)
+		q := ". as $v | [try (" + p + ") catch \"E\"] | [$v, ($v | tojson)]"
+		if _, err := refCompile(q); err == nil && !seen[q] {
+			seen[q] = true
+			probes = append(probes, q)
+		}
+	}
 	dvPairs := map[string]bool{}
 	const chunk = 16
 	for s := 0; s < len(probes); s += chunk {
@@ -494,6 +507,7 @@ func (x *l2run) fromjsonValue() {
 					// a multi-key object: repeated evaluation must give one answer
 					n = 12
 				}
+				d.pair = q + " @ " + jqType(w)
 				seen := d.observe(prog, in, n, false)
 				r.Eval(1)
 				if len(ref.Outs) > 0 {
